@@ -77,6 +77,11 @@ CHECKS.update({
          'For each seeded base case (MOVE / COPY / multi-message APPEND / EXPUNGE, optionally with a second session acting in the same step, every lock and drain a real suspension point) the target step is executed fault-free to count its scheduler moves N, then the identical case is re-executed once for every fault kind (task cancellation, connection reset, client EOF) at every position 0..N. Probe dumps before and after decide: no token lost, APPEND all-or-nothing, completed MOVE in exactly one mailbox, NO/BAD changes nothing.',
          'Determinism is what makes "position k of the same execution" meaningful. On the dict backend the interesting windows exist only under lock_yield; storage-call failures and process kill are maildir-only and live in C15.'),
 })
+CHECKS.update({
+ 'C08': ('exploration', '4/C08', 'seeded hostile mailbox names against the maildir backend (both layouts) under a file-system interposer; path-confinement monitor + before/after tree hashes',
+         'The maildir backend runs on a real tmpfs tree behind SimFS, an interposer that logs every file-system call together with the connection it was made for. Seeded commands with hostile mailbox names, references and patterns are issued by one user while a second user and a foreign directory sit beside it; every path touched for the acting connection must stay inside that user\'s directory (strictly inside for remove/rmdir/rename), and the other user\'s tree, the credential files, the foreign directory and the other user\'s own view must be unchanged. The dict backend gets the black-box part with two users.',
+         'Trusted: SimFS sees every call because the names os/open/NamedTemporaryFile are substituted in mailbox (stdlib) and the pymap.backend.maildir modules; anything reaching the file system by another route would be missed. Mutations outside the scratch tree are blocked and reported.'),
+})
 NOT_YET = {}
 def main():
     props = [json.loads(l) for l in open(os.path.join(ROOT, 'properties.jsonl'))]
